@@ -57,12 +57,18 @@ func c08hq(args []string) error {
 		id := callID.Add(1)
 		nodes, items := c08level(seed)
 		tr.Emit(map[string]any{"ev": "call", "id": id, "tag": tag, "nodes": nodes})
+		injected := false
+		if tag == "hq-fault" {
+			// the next request to the seencheck endpoint fails (before the store looked at it)
+			srv.Faults("seencheck", []string{"500", "503", "reset"}[int(id)%3])
+			injected = true
+		}
 		err := hq.SeencheckItem(seed)
 		st := []string{}
 		for _, it := range items {
 			st = append(st, it.GetStatus().String())
 		}
-		ev := map[string]any{"ev": "ret", "id": id, "st": st}
+		ev := map[string]any{"ev": "ret", "id": id, "st": st, "injected": injected}
 		if err != nil {
 			ev["err"] = err.Error()
 		}
@@ -109,7 +115,11 @@ func c08hq(args []string) error {
 		return seed
 	}
 	for i := 0; i < nseq; i++ {
-		check(one(fmt.Sprintf("s%d.", i/25)), "hq-seq")
+		tag := "hq-seq"
+		if i%7 == 3 {
+			tag = "hq-fault"
+		}
+		check(one(fmt.Sprintf("s%d.", i/25)), tag)
 	}
 	for round := 0; round < nconc; round++ {
 		ns := fmt.Sprintf("c%d.", round)
